@@ -1,8 +1,9 @@
 (** C11 Unwrap-block removes the two tag lines and the two wrapper lines, nothing else. *)
 From Coq Require Import List NArith Arith Bool.
 Import ListNotations.
-From Chiri Require Import Base.Bytes Base.Res Model.Tokenizer Model.Finders Model.Markers Spec.Lines
-     Proofs.UnwrapProofs.
+From Chiri Require Import Base.Bytes Base.Res Model.Tokenizer Model.TagParser Model.Finders Model.Markers
+     Model.Clean Spec.Lines Spec.Rename Spec.Simulation
+     Proofs.UnwrapProofs Proofs.RenameProofs Proofs.BlockDoc Proofs.UnwrapDoc.
 
 (** Exact characterisation of the removable parts of an unwrap-block element (the marker level).
     With n1, n2 the first two line breaks at or after the end of the opening tag and p1, p2 the last
@@ -51,3 +52,80 @@ Example C11_example :
   unwrap_build ex_s (mkToken true [60;116;62]%N 0 0 3 3) (mkToken true [60;47;116;62]%N 10 10 14 14)
   = ((0, 5), Some (8, 14)).
 Proof. vm_compute. reflexivity. Qed.
+
+(** Document level, ONE unwrap-block (Proofs/UnwrapDoc.v).  The document is
+      A "\n" ind <open> "\n" w1 "\n" inner "\n" w2 "\n" ind2 <close> "\n" Z
+    with one ready unwrap-block element: [w1] / [w2] are the wrapper lines, [inner] the lines
+    strictly between them.  Exactly the four lines go: the markers are [open tag .. line break after
+    w1) and [first byte of w2 .. end of the close tag), and with code on the neighbouring lines the
+    output is A, the inner lines (dedented, Properties/C12.v) and Z. *)
+Theorem C11_single_unwrap_block_markers :
+  forall cfg ds de A ind b1 w1 inner w2 ind2 b2 Z el1 el2,
+    let doc := unwrap_doc A ind b1 w1 inner w2 ind2 b2 Z in
+    good_delims ds de -> good_doc ds de doc -> bodies_ok doc ->
+    parse_target b1 = Ok (Some el1) -> parse_target b2 = Ok (Some el2) -> closes el2 el1 ->
+    status cfg el1 = Some true -> has_attr S_UNWRAP (el_attrs el1) = true ->
+    ~ In NL w1 -> ~ In NL w2 -> ~ In NL ind2 ->
+    let p1 := length A + 1 + length ind in
+    let e1 := p1 + length (ds ++ b1 ++ de) + 1 + length w1 in
+    let s2 := e1 + 1 + length inner + 1 in
+    let k2 := s2 + length w2 + 1 + length ind2 + length (ds ++ b2 ++ de) in
+    markers_of cfg ds de (render ds de doc) = Ok [((p1, e1), Some 1); ((s2, k2), Some 0)].
+Proof. exact unwrap_markers. Qed.
+Print Assumptions C11_single_unwrap_block_markers.
+
+Theorem C11_single_unwrap_block_document :
+  forall cfg ds de A ind b1 w1 inner w2 ind2 b2 Z el1 el2,
+    let doc := unwrap_doc A ind b1 w1 inner w2 ind2 b2 Z in
+    good_delims ds de -> good_doc ds de doc -> bodies_ok doc ->
+    parse_target b1 = Ok (Some el1) -> parse_target b2 = Ok (Some el2) -> closes el2 el1 ->
+    status cfg el1 = Some true -> has_attr S_UNWRAP (el_attrs el1) = true ->
+    ~ In NL w1 -> ~ In NL w2 -> ~ In NL ind2 ->
+    Forall (fun c => is_blank c = true) ind -> last_line_not_blank A -> first_line_not_blank Z ->
+    first_line_has_code inner -> last_line_has_code inner ->
+    clean cfg ds de (render ds de doc) = Ok (A ++ NL :: dedent (length ind) inner ++ NL :: Z).
+Proof. exact clean_unwrap_block_code_lines. Qed.
+Print Assumptions C11_single_unwrap_block_document.
+
+(** The boundary: exactly two lines between the tags - all four lines go; one line, or no line
+    break at all between the tags - the element is left completely untouched, tags included. *)
+Theorem C11_two_lines_between_the_tags :
+  forall cfg ds de A ind b1 w1 w2 ind2 b2 Z el1 el2,
+    let doc := block_doc A ind b1 (NL :: w1 ++ NL :: w2 ++ NL :: ind2) b2 Z in
+    good_delims ds de -> good_doc ds de doc -> bodies_ok doc ->
+    parse_target b1 = Ok (Some el1) -> parse_target b2 = Ok (Some el2) -> closes el2 el1 ->
+    status cfg el1 = Some true -> has_attr S_UNWRAP (el_attrs el1) = true ->
+    ~ In NL w1 -> ~ In NL w2 -> ~ In NL ind2 ->
+    Forall (fun c => is_blank c = true) ind -> last_line_not_blank A -> first_line_not_blank Z ->
+    clean cfg ds de (render ds de doc) = Ok (A ++ NL :: Z).
+Proof. exact clean_unwrap_two_lines_code_lines. Qed.
+Print Assumptions C11_two_lines_between_the_tags.
+
+Theorem C11_one_line_between_the_tags_untouched :
+  forall cfg ds de A ind b1 w1 ind2 b2 Z el1 el2,
+    let doc := block_doc A ind b1 (NL :: w1 ++ NL :: ind2) b2 Z in
+    good_delims ds de -> good_doc ds de doc -> bodies_ok doc ->
+    parse_target b1 = Ok (Some el1) -> parse_target b2 = Ok (Some el2) -> closes el2 el1 ->
+    status cfg el1 = Some true -> has_attr S_UNWRAP (el_attrs el1) = true ->
+    ~ In NL w1 -> ~ In NL ind2 ->
+    clean cfg ds de (render ds de doc) = Ok (render ds de doc).
+Proof. exact clean_unwrap_one_line. Qed.
+Print Assumptions C11_one_line_between_the_tags_untouched.
+
+Theorem C11_single_line_element_untouched :
+  forall cfg ds de A ind b1 mid b2 Z el1 el2,
+    let doc := block_doc A ind b1 mid b2 Z in
+    good_delims ds de -> good_doc ds de doc -> bodies_ok doc ->
+    parse_target b1 = Ok (Some el1) -> parse_target b2 = Ok (Some el2) -> closes el2 el1 ->
+    status cfg el1 = Some true -> has_attr S_UNWRAP (el_attrs el1) = true ->
+    ~ In NL mid ->
+    clean cfg ds de (render ds de doc) = Ok (render ds de doc).
+Proof. exact clean_unwrap_no_line. Qed.
+Print Assumptions C11_single_line_element_untouched.
+
+(** Non-vacuity: "a\n  <tl to='2000-01-01 00:00:00' unwrap-block>\n  {\n    x\n\n      y\n  }\n  </tl>\nb"
+    satisfies every premise; markers and output are obtained from the theorems. *)
+Example C11_single_unwrap_block_example : _ := unwrap_example.
+
+(** NOT proved at document level: several unwrap-blocks, nesting, elements among the inner lines
+    (validated by the oracle of this check on generated unwrap documents). *)
